@@ -177,6 +177,8 @@ static void push_evt(m_mod_t *mod, evt_priv_t *evt) {
             if (mod->tb.tokens < mod->tb.burst) {
                 mod->tb.tokens++;
             }
+            /* The refill is no reason to hand over what is being accumulated (eg: low priority events) */
+            return;
         }
     } else {
         m_queue_enqueue(mod->batch.events, evt);
